@@ -15,7 +15,7 @@
    the mode, the formula part they describe is posted identically in both branches. *)
 From Coq Require Import ZArith List Bool String Sorted Permutation.
 From FrameModel Require Import Num.QcTac PB.Expr PB.Cnf PB.Robdd PB.Codify PB.Sat
-  RectSearch.Coords RectSearch.Names RectSearch.Encode RectSearch.Shapes RectSearch.EncodeFacts
+  RectSearch.Coords RectSearch.Names RectSearch.Encode RectSearch.Registry RectSearch.Shapes RectSearch.EncodeFacts
   RectSearch.GridFacts RectSearch.BoxFacts RectSearch.AttachFacts RectSearch.ShapesFacts RectSearch.SearchFacts
   RectSearch.BboxFacts RectSearch.Examples RectSearch.GridGen RectSearch.GridTheorems.
 Import ListNotations.
@@ -166,3 +166,17 @@ Theorem C08_search_exact_grid : forall (sat_o : cnf -> option valuation),
       end.
 Proof. exact search_exact_grid. Qed.
 Print Assumptions C08_search_exact_grid.
+
+(* the correspondence also compares the manager's variable table (the order in which solve and
+   enforce_bb register their variables = their DIMACS numbers); it does so on [encode_reg], the posting
+   sequence with the registrations interleaved.  Registration changes nothing else: the diagram store,
+   the clause list, the auxiliary counter and the codified set are those of [encode], about which the
+   theorems above speak; one is defined exactly when the other is *)
+Theorem C08_registration_irrelevant : forall mode inp k factor ratio bound (m0 : memory),
+  match encode_reg mode inp k factor ratio bound m0, encode mode inp k factor ratio bound m0 with
+  | Some (m, s), Some (m', s') => m = m' /\ clauses s = clauses s' /\ auxcount s = auxcount s' /\ codified s = codified s'
+  | None, None => True
+  | _, _ => False
+  end.
+Proof. exact encode_reg_encode. Qed.
+Print Assumptions C08_registration_irrelevant.
